@@ -135,13 +135,21 @@ def parseErrDiag (e : ParseErr) : Diag :=
   { code := "parse-error", sev := "Error", title := parseErrTitle e, range := t.range, file := t.file,
     text := t.text }
 
+/-- the label with the smallest name (`labels.iter().min()`; the first one among equals) -/
+def minLabelStep (acc : Option (W String)) (l : W String) : Option (W String) :=
+  match acc with
+  | none => some l
+  | some m => if l.val < m.val then some l else some m
+
+def minLabel (ls : List (W String)) : Option (W String) := ls.foldl minLabelStep none
+
 def cfgErrDiag : CfgErr → Diag
   | .labelsNotDefined ls =>
     let names := sortStrings (ls.map (·.val))
-    let first := ls.head!
+    -- located at the label with the smallest name (`labels.iter().min()`)
+    let first := (minLabel ls).getD ls.head!
     { code := "cfg-error", sev := "Error", title := s!"Labels not defined: {", ".intercalate names}",
-      range := first.tok.range, file := first.tok.file,
-      alts := if ls.length > 1 then ls.map fun l => (l.tok.range, l.tok.file) else [] }
+      range := first.tok.range, file := first.tok.file }
   | .duplicateLabel l =>
     { code := "cfg-error", sev := "Error", title := s!"Duplicate label: {l.val}",
       range := l.tok.range, file := l.tok.file }
@@ -149,8 +157,17 @@ def cfgErrDiag : CfgErr → Diag
     { code := "cfg-error", sev := "Error", title := "Unexpected error",
       range := ⟨⟨0, 0, 0⟩, ⟨0, 0, 0⟩⟩, file := nilFile }
 
+/-- rank of a file by its name among the files read (`get_filename(uuid)` compared as
+    `Option<String>`: no file sorts first) -/
+def fileRank (names : List String) (f : FileId) : Nat :=
+  match names[f]? with
+  | some n => if f == nilFile then 0 else 1 + (names.filter (· < n)).length
+  | none => 0
+
+def withRank (names : List String) (d : Diag) : Diag := { d with frank := fileRank names d.file }
+
 def diagLt (a b : Diag) : Bool :=
-  a.file < b.file || (a.file == b.file &&
+  a.frank < b.frank || (a.frank == b.frank &&
     (a.range.start.raw < b.range.start.raw ||
       (a.range.start.raw == b.range.start.raw && a.range.stop.raw < b.range.stop.raw)))
 
@@ -167,9 +184,9 @@ def runAll (desc : Bool) (files : List (String × String)) (base : String) :
   let out := parseFiles files base
   let pd := out.errors.map parseErrDiag
   match genFullCfg desc out.nodes with
-  | .ok g => (sortDiags (pd ++ runLints g), none)
-  | .error (.cfg e) => (sortDiags (pd ++ [cfgErrDiag e]), none)
-  | .error (.hang s) => (sortDiags pd, some s)
+  | .ok g => (sortDiags ((pd ++ runLints g).map (withRank out.reader.read)), none)
+  | .error (.cfg e) => (sortDiags ((pd ++ [cfgErrDiag e]).map (withRank out.reader.read)), none)
+  | .error (.hang s) => (sortDiags (pd.map (withRank out.reader.read)), some s)
 
 def Diag.runTrace (d : Diag) : String :=
   let alts := if d.alts.isEmpty then "" else
